@@ -1,3 +1,130 @@
-(* C04 — placeholder replaced below once MgmtProofs is in place *)
-From Coq Require Import List.
-From PyCasbin Require Import Base Mgmt.
+(* C07 — priority models keep rules in priority order and the best-priority match decides.
+   Explicit priority: Policy.v (add_policy's swap loop, add_policies, update with the same-priority test,
+   sort_rules = Python's stable sorted) — proofs in PriorityProofs.v.
+   Subject priority: Subject.v (get_subject_hierarchy_map, sort_policies_by_subject_hierarchy) — proofs in
+   SubjectProofs.v.  The decision over the stored order is C01's model of the rule loop. *)
+From Coq Require Import List NArith Bool Arith Permutation Sorted.
+From PyCasbin Require Import Base Effect Enforce Policy PolicyProofs EnforceProofs PriorityProofs Subject SubjectProofs.
+Import ListNotations.
+
+(* ---------------- explicit priority ---------------- *)
+
+(* after loading: whatever duplicate-free rule sequence the adapter delivers, the stored rules are in ascending
+   numeric priority ... *)
+Theorem C07_load_establishes_order : forall pi l, NoDup l -> all_keys pi l -> PI pi (sort_rules pi l).
+Proof. exact load_establishes_order. Qed.
+Print Assumptions C07_load_establishes_order.
+
+(* ... are the same rules, and rules of equal priority are in arrival order *)
+Theorem C07_load_is_stable : forall pi l, all_keys pi l ->
+  psorted pi (sort_rules pi l) /\ Permutation (sort_rules pi l) l /\ all_keys pi (sort_rules pi l)
+  /\ forall k, filter (fun x => N.eqb (key pi x) k) (sort_rules pi l) = filter (fun x => N.eqb (key pi x) k) l.
+Proof. exact sort_rules_spec. Qed.
+Print Assumptions C07_load_is_stable.
+
+(* after ANY sequence of single or batch adds, removes (single, batch, filtered) and updates (single, batch), of
+   any length and with any arguments carrying a priority field: duplicate-free, every rule has a priority,
+   ascending numeric priority *)
+Theorem C07_history_keeps_order : forall pi ops l,
+  PI pi l -> Forall (sop_keys pi) ops -> PI pi (fold_left (pstep pi) ops l).
+Proof. exact history_keeps_order. Qed.
+Print Assumptions C07_history_keeps_order.
+
+(* an added rule arrives LAST among the rules of its priority and nothing else moves: for every priority k the
+   subsequence of priority-k rules is the old one, followed by the new rule iff its priority is k *)
+Theorem C07_add_is_stable : forall pi l r k, all_keys pi l -> has_key pi r ->
+  filter (fun x => N.eqb (key pi x) k) (insert_by_priority pi l r)
+  = filter (fun x => N.eqb (key pi x) k) l ++ (if N.eqb (key pi r) k then [r] else []).
+Proof. exact add_is_stable. Qed.
+Print Assumptions C07_add_is_stable.
+
+(* where exactly the swap loop of add_policy puts the rule *)
+Theorem C07_add_position : forall pi l r, all_keys pi l -> has_key pi r ->
+  exists l1 l2, l = l1 ++ l2 /\ insert_by_priority pi l r = l1 ++ [r] ++ l2
+    /\ Forall (fun x => (key pi r < key pi x)%N) l2
+    /\ (forall x, In x l1 -> psorted pi l -> (key pi x <= key pi r)%N).
+Proof. exact insert_decomposes. Qed.
+Print Assumptions C07_add_position.
+
+(* removal of any kind is filtering (the order of what stays is untouched); an update keeps the position and
+   is refused unless the priority is unchanged *)
+Theorem C07_remove_keeps_order : forall pi (f : rule -> bool) l, psorted pi l -> psorted pi (filter f l).
+Proof. exact filter_keeps_sorted. Qed.
+Print Assumptions C07_remove_keeps_order.
+
+Theorem C07_update_keeps_order : forall pi l o n, key pi n = key pi o -> psorted pi l -> psorted pi (replace_rule o n l).
+Proof. exact update_keeps_sorted. Qed.
+Print Assumptions C07_update_keeps_order.
+
+(* the decision is the effect of the first rule in stored order that matches with a definite effect, else deny
+   (priority effector; outcomes without evaluation errors; same theorem as C01's, instantiated) *)
+Theorem C07_first_definite_match_decides : forall outs, no_bad outs = true ->
+  exists ex, enforce_ex_ref PR on outs false = Ok (first_decisive outs, ex).
+Proof. exact (decision_is_spec_total PR). Qed.
+Print Assumptions C07_first_definite_match_decides.
+
+(* ---------------- subject priority ---------------- *)
+
+(* the level rounds of get_subject_hierarchy_map always terminate (the model's fuel is never exhausted) *)
+Theorem C07_levels_total : forall g, hierarchy_map g <> Err EFuel.
+Proof. exact hierarchy_map_fuel_suffices. Qed.
+Print Assumptions C07_levels_total.
+
+(* every role assignment goes from a strictly lower level to a strictly higher one, for ANY hierarchy the
+   code accepts (forests, DAGs, several domains) ... *)
+Theorem C07_inherits_increases_level : forall g es m, edges_of g = Ok es -> hierarchy_map g = Ok m ->
+  forall s t, inherits es s t -> level m s < level m t.
+Proof. exact inherits_increases_level. Qed.
+Print Assumptions C07_inherits_increases_level.
+
+(* ... and a cyclic hierarchy is refused (load raises) rather than sorted arbitrarily *)
+Theorem C07_cycle_is_refused : forall g es s, edges_of g = Ok es -> inherits es s s -> exists c, hierarchy_map g = Err c.
+Proof. exact cycle_is_refused. Qed.
+Print Assumptions C07_cycle_is_refused.
+
+(* after loading, every rule given to a subject stands before every rule given to a role it inherits from *)
+Theorem C07_subject_before_inherited : forall di g p l es, edges_of g = Ok es -> sort_by_subject di g p = Ok l ->
+  forall r1 r2 s t, In r1 p -> In r2 p -> subject_of di r1 = Ok s -> subject_of di r2 = Ok t -> inherits es s t ->
+  consulted_before l r1 r2.
+Proof. exact subject_before_inherited. Qed.
+Print Assumptions C07_subject_before_inherited.
+
+(* the sort loses and invents nothing, and rules of one level keep their arrival order *)
+Theorem C07_subject_sort_permutes : forall di g p l, sort_by_subject di g p = Ok l -> Permutation l p.
+Proof. exact subject_sort_permutes. Qed.
+Print Assumptions C07_subject_sort_permutes.
+
+Theorem C07_subject_sort_stable : forall di g p l, sort_by_subject di g p = Ok l ->
+  exists m, hierarchy_map g = Ok m /\
+    forall k, filter (fun r => key_of m di r =? k) l = filter (fun r => key_of m di r =? k) p.
+Proof. exact subject_sort_stable. Qed.
+Print Assumptions C07_subject_sort_stable.
+
+(* so the more specific subject wins, whatever the matcher: if a rule r1 of subject s matches with a definite
+   effect e and every other rule matching with a definite effect belongs to a role s inherits from, the first
+   definite match in stored order — which C07_first_definite_match_decides says is the decision — is e *)
+Theorem C07_specific_subject_wins : forall di g p l es, edges_of g = Ok es -> sort_by_subject di g p = Ok l ->
+  forall (out : rule -> outcome) r1 s e,
+  In r1 p -> subject_of di r1 = Ok s -> out r1 = Match e -> e <> EOther ->
+  (forall r, In r p -> decisive_out (out r) = true -> r = r1 \/ exists t, subject_of di r = Ok t /\ inherits es s t) ->
+  first_decisive (map out l) = match e with EAllow => true | _ => false end.
+Proof. exact specific_subject_wins. Qed.
+Print Assumptions C07_specific_subject_wins.
+
+(* ---------------- non-vacuity ---------------- *)
+(* explicit priority, column 0: load [5;2;2';1], add priority 2, batch-add [1;5], update in place, remove *)
+Example C07_example_history :
+  let l0 := sort_rules 0 [[5;10]; [2;11]; [2;12]; [1;13]]%N in
+  l0 = [[1;13]; [2;11]; [2;12]; [5;10]]%N /\
+  fold_left (pstep 0) [SAdd [2;14]%N; SAddMany [[1;15]%N; [5;16]%N]; SUpdate [2;11]%N [2;17]%N; SRemove [1;13]%N] l0
+  = [[1;15]; [2;17]; [2;12]; [2;14]; [5;10]; [5;16]]%N.
+Proof. vm_compute. split; reflexivity. Qed.
+
+(* subject priority: alice -> admin -> root, bob -> root in the default domain; rules arrive root, admin, alice,
+   bob: after the sort alice and bob (level 0) come first in arrival order, then admin, then root *)
+Example C07_example_subject :
+  hierarchy_map [[1;2]; [2;3]; [4;3]]%N = Ok [((0,1),0%nat); ((0,4),0%nat); ((0,2),1%nat); ((0,3),2%nat)]%N /\
+  sort_by_subject None [[1;2]; [2;3]; [4;3]]%N [[3;9;7]; [2;9;8]; [1;9;7]; [4;9;8]]%N
+  = Ok [[1;9;7]; [4;9;8]; [2;9;8]; [3;9;7]]%N /\
+  (exists c, hierarchy_map [[1;2]; [2;1]]%N = Err c).
+Proof. vm_compute. repeat split; eauto. Qed.
